@@ -54,6 +54,10 @@ inductive SOp (K : Type _) where
   | rmul (t s : Nat)
   /-- `object a .kernel([alpha,] object x, object y)` -/
   | kern (k : KName) (a : Nat) (alpha : K) (x y : Nat)
+  /-- `(object t)[i] = (object s)[j]`: a row of a matrix object assigned from a row of another -/
+  | rasg (t i s j : Nat)
+  /-- `(object t)[i].axpy(k, (object s)[j])` -/
+  | raxpy (t i : Nat) (k : K) (s j : Nat)
 
 /-- the binary / unary operation names, for the availability tables -/
 inductive OpK where
@@ -89,6 +93,15 @@ def matPairOk (op : OpK) (t s : RKind) (r : Nat) : Bool :=
   | .dg => s == .dg && (op == .asg || op == .add || op == .sub)
   | .sv => if op == .asg then s == .fm || s == .sv || s == .svc else oneByOneSrc s
   | _ => false
+
+/-- the kind of vector a row of a matrix object is: `FieldMatrix` has `FieldVector` rows, `DynamicMatrix` `DynamicVector`
+rows, the row of a scalar matrix view is the scalar vector view it holds -/
+def rowKind : RKind → RKind
+  | .fm => .fv
+  | .dm => .dv
+  | .sv => .sc
+  | .svc => .scc
+  | k => k
 
 /-- kernels: matrix kind `a` with `ar` stored rows (`tv`: seen through a transposed view), `x` / `y` kinds and sizes -/
 def kernTripleOk (a : RKind) (ar : Nat) (tv : Bool) (x : RKind) (xn : Nat) (y : RKind) (yn : Nat) : Bool :=
@@ -185,7 +198,14 @@ def opOk (st : SeqState K) : SOp K → Bool
   | .axpy t _ s => pair .axpy t s
   | .lmul t s => pair .lmul t s && (st.rd t).rows == (st.rd t).cols
   | .rmul t s => pair .rmul t s && (st.rd t).rows == (st.rd t).cols
+  | .rasg t i s j => rowPair .asg t i s j
+  | .raxpy t i _ s j => rowPair .axpy t i s j
 where
+  rowPair (op : OpK) (t i s j : Nat) : Bool :=
+    t < st.size && s < st.size && t != s &&
+    isMatKind (st.kind t) && isMatKind (st.kind s) && st.kind t != .dg && st.kind s != .dg &&
+    i < (st.rd t).rows && j < (st.rd s).rows && (st.rd t).cols == (st.rd s).cols &&
+    vecPairOk op (rowKind (st.kind t)) (rowKind (st.kind s)) (st.rd t).cols
   pair (op : OpK) (t s : Nat) : Bool :=
     t < st.size && s < st.size && t != s &&
     st.lrows t == st.lrows s && (st.rd t).cols == (st.rd s).cols &&
@@ -235,6 +255,9 @@ def rmulVal (kt ks : RKind) (bt bs : Mat K) : Mat K :=
   else if kt == .fm && ks == .fm then rightmultiplyFM bt bs
   else rightmultiply bt bs
 
+/-- the matrix with row `i` replaced -/
+def Mat.setRow (A : Mat K) (i : Nat) (v : Nat → K) : Mat K := ⟨A.rows, A.cols, fun r c => if r = i then v c else A.e r c⟩
+
 /-- the vector a kernel leaves in `y`, as a 1 x n cell -/
 def kernVal (conj : K → K) (k : KName) (A : Rep K) (alpha : K) (bx by' : Mat K) : Mat K :=
   ⟨1, by'.cols, fun _ => (repKernel conj k A alpha (bx.e 0) ⟨by'.cols, by'.e 0⟩).get⟩
@@ -243,6 +266,7 @@ def kernVal (conj : K → K) (k : KName) (A : Rep K) (alpha : K) (bx by' : Mat K
 def SOp.target : SOp K → Nat
   | .asg t _ | .fill t _ | .add t _ | .sub t _ | .axpy t _ _ | .scale t _ | .lmul t _ | .rmul t _ => t
   | .kern _ _ _ _ y => y
+  | .rasg t _ _ _ | .raxpy t _ _ _ _ => t
 
 /-- the value an operation computes for its target, from what the operand objects show -/
 def opVal (conj : K → K) (st : SeqState K) : SOp K → Mat K
@@ -255,11 +279,15 @@ def opVal (conj : K → K) (st : SeqState K) : SOp K → Mat K
   | .lmul t s => leftmultiply (st.rd t) (st.rd s)
   | .rmul t s => rmulVal (st.kind t) (st.kind s) (st.rd t) (st.rd s)
   | .kern k a alpha x y => kernVal conj k (st.matRep a) alpha (st.rd x) (st.rd y)
+  | .rasg t i s j => (st.rd t).setRow i ((st.rd s).e j)
+  | .raxpy t i k s j => (st.rd t).setRow i (vAxpy ((st.rd t).row i) k ((st.rd s).e j)).get
 
 /-- what an operation does with the handle of its target: `none` / `copyEntry` = it writes the value through it -/
 def handleMode (st : SeqState K) : SOp K → Option HAssign
   | .asg t s => assignMode (st.kind t) (st.kind s)
   | .fill t _ => fillMode (st.kind t)
+  -- the row of a scalar matrix view is its scalar vector view: assigning the row is assigning that view
+  | .rasg t _ s _ => assignMode (rowKind (st.kind t)) (rowKind (st.kind s))
   | _ => none
 
 /-- one operation on the store; `none`: not executed for these objects (or an assignment table without meaning) -/
@@ -269,6 +297,7 @@ def seqStep (conj : K → K) (st : SeqState K) (op : SOp K) : Option (SeqState K
   | some .reseat =>
     match op with
     | .asg t s => some (st.reseat t s)
+    | .rasg t _ s _ => some (st.reseat t s)
     | _ => none
   | some .viaRow => none
   | _ => some (st.wr op.target (opVal conj st op).freeze)
@@ -288,14 +317,19 @@ structure Decl (K : Type _) where
   kind : RKind
   init : Mat K
   wraps : Nat
+  /-- for a transposed view: made by `transpose(r)` from a const lvalue `std::reference_wrapper r` instead of `transposedView(A)` -/
+  viaRefWrapper : Bool := false
 
 /-- the store right after the declarations: every object refers to its own cell; `transposedView(A)` refers to the cell of
-`A` if it holds a reference, to a cell of its own with a copy of `A` otherwise (read from transpose.hh) -/
+`A` if it holds a reference, to a cell of its own with a copy of `A` otherwise (read from transpose.hh, for both ways of
+making the view) -/
 def initState (ds : List (Decl K)) : SeqState K :=
   { regs := (List.range ds.length).map fun i =>
       match ds[i]? with
       | some d =>
-        if d.kind == .tv then ⟨.tv, if Gen.tvHolds == .reference then d.wraps else i, d.wraps⟩ else ⟨d.kind, i, i⟩
+        if d.kind == .tv then
+          ⟨.tv, if (if d.viaRefWrapper then Gen.twRefHolds else Gen.tvHolds) == .reference then d.wraps else i, d.wraps⟩
+        else ⟨d.kind, i, i⟩
       | none => ⟨.tv, i, i⟩
     bufs := ds.map fun d =>
       if d.kind == .tv then (match ds[d.wraps]? with | some b => b.init | none => d.init) else d.init }
